@@ -8,6 +8,7 @@ import Andes.Model.IslandDriver
 import Andes.Model.SolverCacheDriver
 import Andes.Model.DiscreteDriver
 import Andes.Model.NewtonDriver
+import Andes.Model.PINumericDriver
 /-! One case per input line, one canonical output line; the first word selects the model. -/
 
 def handle (line : String) : String :=
@@ -15,6 +16,7 @@ def handle (line : String) : String :=
   | "tds" :: args => Andes.Tds.handleTds args
   | "swt" :: args => Andes.Tds.handleSwt args
   | "tog" :: args => Andes.Events.handleTog args
+  | "pinum" :: args => Andes.PINumeric.handlePinum args
   | "nr" :: args => Andes.Newton.handleNr args
   | "stp" :: args => Andes.Newton.handleStp args
   | "cli" :: args => Andes.Newton.handleCli args
